@@ -63,6 +63,7 @@ def run(argv):
              ('PureTrace/query', P('query'), setk(['obs', 'string'], 'hamlet/a/char/ophelia/rig'), 'string'),
              ('PureTrace/unfold', P('unfold'), lambda r: r['obs']['res'].pop(), 'set_equal'),
              ('PureTrace/findlist', P('findlist'), lambda r: r['obs']['res'].append(r['obs']['res'][0]), 'nodup'),
+             ('PureTrace/findlist-options', P('findlist'), lambda r: r['obs']['x_res'].pop(), 'opt_extrapolate'),
              ('PureTrace/topath', P('topath'), lambda r: r['obs']['cfgs'][0]['path'][-1].__setitem__(0, 'zz'), 'cfg_'),
              ('PureTrace/frompath', P('frompath'), setk(['obs', 'type'], ''), 'type')]
     for name, pick, mut, exp in tests:
@@ -102,7 +103,7 @@ def run(argv):
         wl.append(dict(call=e, obs={}))
         if e['op'] == 'weffect':
             wl.append(dict(call=dict(op='wsafe'), obs={}))
-    wl.append(dict(call=dict(op='wend', sid='x', first=False), obs=dict(raised='', ret=True, final=[['a', '1']], expect_new=[['a', '1']])))
+    wl.append(dict(call=dict(op='wend', sid='x', first=False), obs=dict(raised='', ret=True, final=[['a', '1']], expect_new=[['a', '1']], n_renames=1)))
     with open(wt, 'w') as f:
         for r_ in wl:
             f.write(json.dumps(r_) + '\n')
